@@ -195,6 +195,13 @@ theorem asLpAssignment_prefix_collision_counterexample (v : Ext K) :
     asLpAssignment ["$sl_x"] [v] = [] := by
   simp [asLpAssignment, zipNames]
 
+/-- what else the `LpSolution` of the tableau simplex carries (`as_lp_solution` → `LpSolution::new`): status `Optimal`, no
+row activities, no shadow prices — so `slow_simplex_solution_exact_partial` below speaks about the whole returned object. -/
+theorem asLpSolution_status_rows (names : List String) (values : List (Ext K)) (value : Ext K) :
+    (asLpSolution names values value).status = .optimal ∧ (asLpSolution names values value).constraints = [] ∧
+    (asLpSolution names values value).shadow = [] ∧ (asLpSolution names values value).value = value := by
+  simp [asLpSolution, lpSolutionNew]
+
 /-! ### non-vacuity -/
 
 /-- `x + y ≤ 3`, `x` integer in `0..5`, `y ∈ {0,1}` at `(2, 1)`. -/
